@@ -645,6 +645,123 @@ def valist_uses(f):
     return out, n[0]
 
 
+WIPERS = ("insecure_memzero", "explicit_bzero", "memset_s")
+
+
+def wiped_reads(f):
+    """[(reading element, array name, wipe element)] for reads of a local array made, on some path, after the whole array was wiped
+    (insecure_memzero over its full size) and before anything was stored into it again -- directly or through a local pointer that
+    holds the array's address at that point (pointer values followed flow-sensitively: `K = khash`).  A wipe says the contents are
+    dead; a later read takes zeros for data.  Also returns the number of wipes looked at."""
+    u = f.unit
+    arrs = {}
+    for e in f.all_elems():
+        if e.cls == "DeclStmt":
+            for d in e.decls or []:
+                if isinstance(d, dict) and d.get("kind") == "local" and not d.get("static"):
+                    t = u.types.get(d.get("ty")) or {}
+                    if t.get("kind") == "array" and t.get("size"):
+                        arrs[d["id"]] = (d["name"], t["size"])
+    if not arrs:
+        return [], 0
+
+    def base(t):
+        """(kind, id) of the object a pointer-valued term designates: ('a', array id) or ('p', pointer variable id)"""
+        while t[0] == "cast":
+            t = t[-1]
+        if t[0] == "&" and t[1][0] == "[]":
+            return base(t[1][1])
+        if t[0] == "+" and len(t) == 3:
+            return base(t[1])
+        if t[0] == "v" and len(t) > 2:
+            return ("a", t[2]) if t[2] in arrs else ("p", t[2])
+        return None
+
+    def targets(st, t):
+        b = base(t)
+        if b is None:
+            return set()
+        if b[0] == "a":
+            return {b[1]}
+        return {a for (p, a) in st[1] if p == b[1]}
+
+    def full_wipe(e):
+        if e.cls == "CallExpr" and e.callee in WIPERS and e.arg(0) is not None and e.arg(1) is not None:
+            b = base(norm(e.arg(0)))
+            n = norm(e.arg(1 if e.callee != "memset_s" else 3) if e.callee != "memset_s" or len(e.args) > 3 else e.arg(1))
+            if b is not None and b[0] == "a" and n[0] == "c" and n[1] == arrs[b[1]][1] and norm(e.arg(0)) in (("v", arrs[b[1]][0], b[1]), ("&", ("[]", ("v", arrs[b[1]][0], b[1]), ("c", 0)))):
+                return b[1]
+        return None
+
+    def is_const_ptr(a):
+        t = u.types.get(a.ty) or {}
+        pt = t.get("pointee", "")
+        return t.get("kind") == "ptr" and (pt.startswith("const ") or (u.types.get(pt) or {}).get("const"))
+
+    def tr(st, e):
+        wiped, al = st
+        if e.cls == "CallExpr" and e.callee:
+            w = full_wipe(e)
+            if w is not None:
+                return (wiped | frozenset([(w, e.pos)]), al)
+            # a call handed the array through a pointer to non-const may store into it
+            for a in e.args:
+                if a is None:
+                    continue
+                if (u.types.get(a.ty) or {}).get("kind") in ("ptr", "array") and not is_const_ptr(a):
+                    for x in targets(st, norm(a)):
+                        wiped = frozenset(y for y in wiped if y[0] != x)
+            return (wiped, al)
+        if e.is_assign:
+            L = norm(e.kid(0))
+            if L[0] == "v" and len(L) > 2 and L[2] not in arrs:
+                al = frozenset(x for x in al if x[0] != L[2])
+                if e.op == "=" and e.kid(1) is not None:
+                    b = base(norm(e.kid(1)))
+                    if b is not None:
+                        al = al | (frozenset([(L[2], b[1])]) if b[0] == "a" else frozenset((L[2], a2) for (p2, a2) in st[1] if p2 == b[1]))
+                return (wiped, al)
+            if L[0] in ("[]", "*"):
+                for x in targets(st, L[1]):
+                    wiped = frozenset(y for y in wiped if y[0] != x)
+                return (wiped, al)
+        if e.cls == "DeclStmt":
+            for d in e.decls or []:
+                if isinstance(d, dict) and d.get("init") and d.get("id") not in arrs:
+                    b = base(norm(f.elem(d["init"])))
+                    if b is not None:
+                        al = al | (frozenset([(d["id"], b[1])]) if b[0] == "a" else frozenset((d["id"], a2) for (p2, a2) in st[1] if p2 == b[1]))
+            return (wiped, al)
+        return st
+    sv = Solver(f, (frozenset(), frozenset()), tr, None, lambda a, b: (a[0] | b[0], a[1] | b[1])).run()
+    out, nw = [], [0]
+    seen = set()
+
+    def visit(e, st):
+        if full_wipe(e) is not None:
+            nw[0] += 1
+            return
+        if not st[0]:
+            return
+        hit = set()
+        if e.cls == "ImplicitCastExpr" and e.op == "LValueToRValue" and e.kid(0) is not None:
+            k = e.kid(0).strip()
+            if k is not None and k.cls in ("ArraySubscriptExpr", "UnaryOperator"):
+                t = norm(k)
+                if t[0] in ("[]", "*"):
+                    hit = targets(st, t[1])
+        elif e.cls == "CallExpr" and e.callee and e.callee not in WIPERS:
+            for a in e.args:
+                if a is not None and (u.types.get(a.ty) or {}).get("kind") in ("ptr", "array") and is_const_ptr(a):
+                    hit |= targets(st, norm(a))
+        for (w, pos) in st[0]:
+            if w in hit and (w, e.line) not in seen:
+                seen.add((w, e.line))
+                out.append((e, arrs[w][0], pos))
+    sv.visit(visit)
+    return out, nw[0]
+
+
 def imalloc_tests(f):
     """[call] for `imalloc(n, size)` results taken for a failed allocation without regard to n: imalloc answers NULL for n == 0 by
     design, so a NULL is a failure only where n > 0 is known (the IMALLOC macro tests both)."""
@@ -734,6 +851,17 @@ def apply(rep, pid, files, tier):
                                 "for zero records by design", function=f.name, construct="imalloc-zero")
                     if not bad:
                         rep.ok("IMALLOC-zero", "%s: NULL from imalloc is a failure only for a non-zero count" % f.name, f.loc, "%d tests" % ni)
+            # WIPED-READ (no reference needed)
+            if f.file == up or f.file in files:
+                bad, nw = wiped_reads(f)
+                if nw:
+                    n += 1
+                    for e, name, pos in bad:
+                        rep.bad("WIPED-READ", "%s: `%s` after %s was wiped" % (f.name, e.text[:40], name), e.where,
+                                "a path reaches this read of the local array `%s` (possibly through a pointer that holds its address) after insecure_memzero() has wiped all of it "
+                                "and before anything is stored into it again: zeros are taken for the data that was there" % name, function=f.name, construct="wiped-read:" + name)
+                    if not bad:
+                        rep.ok("WIPED-READ", "%s: nothing reads a local array after it has been wiped" % f.name, f.loc, "%d wipes" % nw)
             # VALIST (no reference needed)
             if f.file == up or f.file in files:
                 bad, nv = valist_uses(f)
